@@ -148,6 +148,8 @@ struct st {
     uint64_t rap;
     uint64_t match_min, match_max; bool match_set;
     bool probe_drop;
+    int plug_idx;               /* >= 0: the probe answers the next need_output by plugging this sink */
+    bool plugged;
     uint64_t setattr_seed; bool setattr_set;
     struct uref *setattr_dict;
     uint64_t optv[MAXOPT];       /* shadow of numeric options (baseline read right after allocation) */
@@ -560,9 +562,23 @@ static const struct desc catalogue[] = {
 /* ------------------------------------------------------------------ */
 /* probe hook: probe_uref events                                       */
 /* ------------------------------------------------------------------ */
+enum { D_SET_OUTPUT_BY_PROBE = 3 };      /* same code as D_SET_OUTPUT (declared below) */
 static bool probe_hook(struct rprobe *rp, struct upipe *upipe, int event, va_list args, int *ret_p)
 {
-    (void)upipe;
+    /* an application probe may answer need_output (no output, or the output
+     * rejected the flow definition) by plugging another output */
+    if (event == UPROBE_NEED_OUTPUT && rp->id == S.pipe_id && S.plug_idx >= 0 && upipe == S.pipe) {
+        int idx = S.plug_idx;
+        S.plug_idx = -1;
+        vh_tr("(probe plugs sink %d on need_output)", idx);
+        lab_ev(EV_DRIVER, D_SET_OUTPUT_BY_PROBE, S.sink_ids[idx], S.pipe_id, 0, NULL, "");
+        upipe_set_output(upipe, S.sinks[idx]);
+        S.cur_out = idx;
+        S.plugged = true;
+        VH_COUNT("op.output_plugged_by_probe_on_need_output");
+        *ret_p = UBASE_ERR_NONE;
+        return true;
+    }
     if (event == UPROBE_PROBE_UREF && rp->id == S.pipe_id) {
         unsigned sig = va_arg(args, unsigned);
         if (sig != UPIPE_PROBE_UREF_SIGNATURE) return false;
@@ -740,7 +756,7 @@ static void check_sync_output(struct st *s, struct in_rec *rec, int first_new, c
 /* ------------------------------------------------------------------ */
 /* driver operations                                                   */
 /* ------------------------------------------------------------------ */
-enum { D_SET_FLOW_DEF = 1, D_INPUT, D_SET_OUTPUT, D_FLUSH, D_RELEASE, D_SUB_ALLOC, D_SUB_RELEASE, D_SUB_SET_OUTPUT, D_CTL, D_LOOP };
+enum { D_SET_FLOW_DEF = 1, D_INPUT, D_SET_OUTPUT, D_FLUSH, D_RELEASE, D_SUB_ALLOC, D_SUB_RELEASE, D_SUB_SET_OUTPUT, D_CTL, D_LOOP, D_FLOW_DEF_ACCEPTED };
 
 static void op_set_flow_def(struct st *s)
 {
@@ -775,6 +791,7 @@ static void op_set_flow_def(struct st *s)
     s->cur_def_seed = seed;
     s->agg_input_size = seed == 2 ? 24 : seed == 3 ? 188 : 0;
     { struct uref *fd2 = make_flow_def(d->def, seed); s->flowdef_hash = lab_dict_hash(fd2); uref_free(fd2); }
+    lab_ev(EV_DRIVER, D_FLOW_DEF_ACCEPTED, 0, s->flowdef_hash, 0, NULL, "");
     VH_COUNT("op.set_flow_def");
 }
 
@@ -810,11 +827,22 @@ static void op_input(struct st *s)
     int first_new = lab_ninputs;
     rec->connected = s->cur_out >= 0 && s->sink_accept[s->cur_out];
     rec->sink = s->cur_out >= 0 ? s->sink_ids[s->cur_out] : -1;
+    /* one input in four: should the pipe throw need_output during this input,
+     * the probe plugs another sink (one-to-one pipes without sub-pipes) */
+    s->plug_idx = -1; s->plugged = false;
+    if ((s->d->klass == K_IDENTITY || s->d->klass == K_TRANSFORM || s->d->klass == K_FILTER) && vh_chance(R, 1, 4)) {
+        int idx = vh_below(R, 4);
+        bool used = idx == s->cur_out;
+        for (int i = 0; i < s->nsubs; i++) if (s->subs[i] && s->sub_out[i] == idx) used = true;
+        if (!used) s->plug_idx = idx;
+    }
     if (mode == MODE_C14 && s->d->klass == K_REGROUP) ref_input(s, rec->bytes, rec->n);
     if (src_pump && mockloop_pump_active(src_pump)) VH_COUNT("src_pump.input_while_unblocked");
     else if (src_pump) VH_COUNT("src_pump.input_while_blocked");
     upipe_input(s->pipe, u, src_pump ? &src_pump : NULL);
     if (src_pump && !mockloop_pump_active(src_pump)) VH_COUNT("src_pump.blocked_after_input");
+    if (s->plugged) { rec->connected = s->sink_accept[s->cur_out]; rec->sink = s->sink_ids[s->cur_out]; }
+    s->plug_idx = -1;
     s->inputs++;
     VH_COUNT("op.input");
     switch (s->d->klass) {
@@ -984,8 +1012,31 @@ static void check_c04(struct st *s)
     for (int i = 0; i < 8; i++) { upstream[i] = -1; need_def[i] = false; last_rejected[i] = false; any_def[i] = false; }
     memset(cur_def, 0, sizeof(cur_def));
     char key[128];
+    /* pipes that hand the input flow definition over unchanged: every buffer
+     * must reach a sink that last accepted the definition its buffer was input
+     * under (the pipe's own new_flow_def events are not taken as the truth) */
+    static const char *const passthrough[] = { "idem", "dup", "setattr", "setrap", "match_attr", "probe_uref", "nodemux", "noclock",
+        "time_limit", "dump", "multicat_probe", "qsink", "skip", "htons", "delay", NULL };
+    /* not judged: buffer, burst, discard_blocking, rate_limit hold buffers and apply a new
+     * flow definition at once (not in band), so buffers input before the change come out
+     * after it by design */
+    bool pass = false;
+    if (s->d) for (int k = 0; passthrough[k]; k++) if (!strcmp(passthrough[k], s->d->name)) pass = true;
+    uint64_t in_def = 0, sink_def[8] = { 0 };
+    static uint64_t def_of_seq[MAXIN];
+    if (pass) memset(def_of_seq, 0, sizeof(def_of_seq));
     for (int i = 0; i < lab_nev; i++) {
         struct ev *e = &lab_log[i];
+        if (pass && e->kind == EV_DRIVER && e->a == D_FLOW_DEF_ACCEPTED) in_def = e->c;
+        if (pass && e->kind == EV_DRIVER && e->a == D_INPUT && e->b >= 0 && e->b < MAXIN) def_of_seq[e->b] = in_def;
+        if (pass && e->kind == EV_SINK_FLOWDEF && e->a >= 0 && e->a < 8 && e->b) sink_def[e->a] = e->c;
+        if (pass && e->kind == EV_SINK_INPUT && e->a >= 0 && e->a < 8 && e->b >= 0 && e->b < MAXIN && def_of_seq[e->b] &&
+            upstream[e->a] >= 0 && sink_def[e->a] != def_of_seq[e->b]) {
+            snprintf(key, sizeof(key), "c04:%s:input-under-another-flow-def", s->d->name);
+            vh_violation_noabort(key, "buffer seq %d was input under one flow definition and delivered to sink %d whose last accepted definition is another one (%s)", e->b, e->a, sink_def[e->a] ? "stale or altered" : "none");
+            VH_COUNT("c04.passthrough_mismatch");
+        }
+        if (pass && e->kind == EV_SINK_INPUT) VH_COUNT("c04.passthrough_inputs_checked");
         switch (e->kind) {
             case EV_PROBE: {
                 int p = e->a;
